@@ -64,6 +64,7 @@ class Profile:
         self.scoped_uses = True
         self.p_scoped = 0.2
         self.special_types = True
+        self.layout_defaults = False   # defaults with inner runs of blanks / line breaks (parser checks only)
         self.__dict__.update(kw)
 
 
@@ -180,6 +181,10 @@ class Gen:
                  'std::vector<int>()', 'KeyFormatter()', 'gtsam::DefaultKeyFormatter', '-9.81',
                  'x+1', '"//"', 'Foo::Bar', 'std::map<int,double>{}', '1 + 2', 'a /*c*/ b',
                  '{{1,2},{3,4}}', '&g', '!f']
+        if getattr(self.p, 'layout_defaults', False):
+            # defaults whose own layout matters: runs of blanks, line breaks, blanks inside literals
+            atoms = atoms + ['"    "', '"a,  b"', 'Foo(1,\n      2)', 'a  +  b', '" "', "' '", 'f( x )', '{ 1,  2 }', 'a\n  + b',
+                             '"x  y"  "z"', 'std::pair<int,  int>()']
         self.count('default')
         return r.choice(atoms)
 
